@@ -41,6 +41,7 @@ bool unlock(void* world);
 bool locked(void* world);
 uint64_t clone(void* world, uint64_t entity, std::string& err);
 bool stampedNow(void* world, uint64_t entity, uint32_t component_id);
+void bumpVersion(void* world);
 void setStorageCap(uint32_t cap);
 std::string errKind(const std::exception& ex);
 }
@@ -325,6 +326,7 @@ struct Driver {
         desc.entity_required = ent;
         g_job = &j;
         Job* job = makeJob(desc);
+        peek::bumpVersion(world);
         runJob(job, world, par ? kParallel : kCurrentThread);
         destroyJob(job);
         g_job = nullptr;
